@@ -164,22 +164,8 @@ theorem inv_apply_appendC (c : RtCtx) (hs : c.SizesOK) (σ : CState) (isStart : 
 
 theorem inv_setStrAlloc (c : RtCtx) (σ : CState) (isStart : Bool) (i : Nat) (h : Inv c σ) :
     Inv c (c.setStrAlloc σ isStart i) ∧ ((c.setStrAlloc σ isStart i).str i).writable = true := by
-  simp only [RtCtx.setStrAlloc]
-  split
-  · have hb := h.2 i
-    refine ⟨inv_setStr c σ i _ h ⟨hb.1, ?_, ?_, ?_⟩, ?_⟩
-    · intro _; simp
-    · intro h'; exact absurd h' (by simp)
-    · simp
-    · rw [str_setStr]
-      split
-      · simp [StrBuf.writable]
-      · next hne =>
-        -- out of range: the buffer is the default one
-        have hge : ¬ i < σ.strs.size := fun hlt => hne ⟨rfl, hlt⟩
-        rw [str_default_of_ge σ i hge]; rfl
-  · obtain ⟨h1, _, hw⟩ := inv_onDemandAlloc c σ i h
-    exact ⟨h1, hw⟩
+  obtain ⟨h1, _, hw⟩ := inv_onDemandAlloc c σ i h
+  exact ⟨h1, hw⟩
 
 theorem inv_foldl_write (c : RtCtx) (i : Nat) (val : Nat → Nat) :
     ∀ (ks : List Nat) (σ : CState), Inv c σ → (σ.str i).writable = true →
